@@ -14,10 +14,13 @@ package main
 // schemas are read from the real states packages at run time.
 
 import (
+	"bytes"
 	"context"
 	"encoding/json"
 	"errors"
 	"fmt"
+	"os"
+	"os/exec"
 	"reflect"
 	"slices"
 	"sort"
@@ -755,12 +758,22 @@ func c15ExecPool(in *C15Input) *c15Obs {
 	s.HealthcheckPause = 5 * time.Millisecond
 	s.OpTimeout = time.Second
 	s.Heartbeat = time.Hour
+	// the default 100ms handler timeout turns every scheduling hiccup of a
+	// loaded box into a cancelled transition; not the subject here
+	s.Mach.HandlerTimeout = 5 * time.Second
 	if in.SetPool {
 		s.SetPool(in.Min, in.Max, in.Warm, 0)
 	} else {
 		s.Min, s.Max, s.Warm = in.Min, in.Max, in.Warm
 	}
 	s.Start(":0")
+	// StartState's goroutine subscribes to PoolReady once both RPC servers are
+	// up; tearing the machine down before that hits the When1-while-disposing
+	// panic (C13) on a goroutine nobody recovers
+	r.waitFor(3*time.Second, func() bool {
+		return s.Mach.Is1(c15S.LocalRpcReady) && s.PublicMux != nil && s.PublicMux.Mach.Is1("Ready")
+	})
+	time.Sleep(3 * time.Millisecond)
 	r.quiet(200 * time.Millisecond)
 	for _, st := range in.Steps {
 		r.step(st)
@@ -768,6 +781,7 @@ func c15ExecPool(in *C15Input) *c15Obs {
 	r.quiet(100 * time.Millisecond)
 	// teardown: stop the state (RPC servers), expire every context, free the seams
 	s.Mach.Remove1(c15S.Start, nil)
+	time.Sleep(5 * time.Millisecond)
 	r.mx.Lock()
 	reals := slices.Clone(r.reals)
 	r.mx.Unlock()
@@ -775,6 +789,9 @@ func c15ExecPool(in *C15Input) *c15Obs {
 		if !w.gone {
 			w.w.Stop(true)
 		}
+	}
+	if len(reals) > 0 {
+		time.Sleep(20 * time.Millisecond)
 	}
 	cancel()
 	select {
@@ -792,6 +809,96 @@ func c15ExecPool(in *C15Input) *c15Obs {
 	obs.WSets = slices.Clone(obs.WSets)
 	r.wmx.Unlock()
 	return obs
+}
+
+// ---------------------------------------------------------------- child processes
+
+func c15Child() {
+	dec := json.NewDecoder(os.Stdin)
+	enc := json.NewEncoder(os.Stdout)
+	for {
+		var in C15Input
+		if err := dec.Decode(&in); err != nil {
+			return
+		}
+		must(enc.Encode(c15ExecPool(&in)))
+	}
+}
+
+// c15RunChildren executes the inputs in order in a child process, restarting
+// it after a crash or a hang; returns the observations and the crash count.
+func c15RunChildren(c *Ctx, ins []*C15Input) ([]*c15Obs, int) {
+	res := make([]*c15Obs, len(ins))
+	crashes := 0
+	exe, err := os.Executable()
+	must(err)
+	i := 0
+	for i < len(ins) {
+		cmd := exec.Command(exe, "C15", "--out", c.OutDir)
+		cmd.Env = append(os.Environ(), "AMVERIF_C15_CHILD=1")
+		stdin, err := cmd.StdinPipe()
+		must(err)
+		stdout, err := cmd.StdoutPipe()
+		must(err)
+		var stderr bytes.Buffer
+		cmd.Stderr = &stderr
+		must(cmd.Start())
+		rest := ins[i:]
+		go func() {
+			enc := json.NewEncoder(stdin)
+			for _, in := range rest {
+				if enc.Encode(in) != nil {
+					break
+				}
+			}
+			stdin.Close()
+		}()
+		type item struct {
+			obs *c15Obs
+			err error
+		}
+		ch := make(chan item)
+		go func() {
+			dec := json.NewDecoder(stdout)
+			for range rest {
+				var o c15Obs
+				err := dec.Decode(&o)
+				ch <- item{&o, err}
+				if err != nil {
+					return
+				}
+			}
+		}()
+		failed := false
+		for !failed && i < len(ins) {
+			select {
+			case it := <-ch:
+				if it.err != nil {
+					failed = true
+					break
+				}
+				res[i] = it.obs
+				i++
+			case <-time.After(120 * time.Second):
+				failed = true
+			}
+		}
+		_ = cmd.Process.Kill()
+		_ = cmd.Wait()
+		if failed && i < len(ins) {
+			msg := stderr.String()
+			if k := strings.Index(msg, "\n\n"); k > 0 {
+				msg = msg[:k]
+			}
+			if len(msg) > 1500 {
+				msg = msg[:1500]
+			}
+			res[i] = &c15Obs{Err: "child process crashed or hung: " + msg}
+			crashes++
+			i++
+		}
+	}
+	return res, crashes
 }
 
 // ---------------------------------------------------------------- schemas
@@ -841,8 +948,8 @@ func c15GroupsOf(v reflect.Value, out map[string]am.S) {
 
 // c15LoadSchema builds a handler-less machine from the real schema and reads
 // the parsed schema, the index order and the declared groups back from it.
-func c15LoadSchema(schema am.Schema, names am.S, groups any) (*c15Schema, *am.Machine) {
-	m := am.New(context.Background(), schema, &am.Opts{Id: fmt.Sprintf("c15s%d", c15Seq.Add(1))})
+func c15LoadSchema(ctx context.Context, schema am.Schema, names am.S, groups any) (*c15Schema, *am.Machine) {
+	m := am.New(ctx, schema, &am.Opts{Id: fmt.Sprintf("c15s%d", c15Seq.Add(1))})
 	must(m.VerifyStates(names))
 	order := m.StateNames()
 	idx := map[string]int{}
@@ -912,11 +1019,13 @@ func c15CoqSchema(name string, sc *c15Schema) string {
 
 func c15ExecExplore(in *C15Input, sup, wrk *c15Schema) *c15Obs {
 	obs := &c15Obs{}
+	ctx, cancel := context.WithCancel(context.Background())
+	defer cancel()
 	var m *am.Machine
 	if in.Explore == "worker" {
-		_, m = c15LoadSchema(nstates.WorkerSchema, c15Wk.Names(), nstates.WorkerGroups)
+		_, m = c15LoadSchema(ctx, nstates.WorkerSchema, c15Wk.Names(), nstates.WorkerGroups)
 	} else {
-		_, m = c15LoadSchema(nstates.SupervisorSchema, c15S.Names(), nstates.SupervisorGroups)
+		_, m = c15LoadSchema(ctx, nstates.SupervisorSchema, c15S.Names(), nstates.SupervisorGroups)
 	}
 	names := m.StateNames()
 	for _, op := range in.Ops {
@@ -936,7 +1045,6 @@ func c15ExecExplore(in *C15Input, sup, wrk *c15Schema) *c15Obs {
 		sort.Ints(act)
 		obs.Sets = append(obs.Sets, act)
 	}
-	m.Dispose()
 	return obs
 }
 
@@ -1077,10 +1185,14 @@ func c15GenExplore(r *Rng, which string, nStates int) *C15Input {
 // ---------------------------------------------------------------- runner
 
 func runC15(c *Ctx) error {
-	sup, supM := c15LoadSchema(nstates.SupervisorSchema, c15S.Names(), nstates.SupervisorGroups)
-	wrk, wrkM := c15LoadSchema(nstates.WorkerSchema, c15Wk.Names(), nstates.WorkerGroups)
-	supM.Dispose()
-	wrkM.Dispose()
+	if os.Getenv("AMVERIF_C15_CHILD") != "" {
+		c15Child()
+		return nil
+	}
+	lctx, lcancel := context.WithCancel(context.Background())
+	sup, _ := c15LoadSchema(lctx, nstates.SupervisorSchema, c15S.Names(), nstates.SupervisorGroups)
+	wrk, _ := c15LoadSchema(lctx, nstates.WorkerSchema, c15Wk.Names(), nstates.WorkerGroups)
+	lcancel()
 	prIdx := slices.Index(sup.Names, c15S.PoolReady)
 
 	out := NewOut(c.OutDir, "C15",
@@ -1131,20 +1243,43 @@ func runC15(c *Ctx) error {
 		out.Add(j.kind, in, obs, c15Coq(in, obs, prIdx), trivial, key)
 	}
 
+	crashes := 0
 	runAll := func(jobs []*job, par int) {
-		sem := make(chan struct{}, par)
+		// pool cases run in child processes, `par` at a time, each child taking
+		// every par-th case: a panic on a goroutine of /repo (there are known
+		// ones on the disposal paths, see C13) costs one case, not the run
 		var wg sync.WaitGroup
-		for _, j := range jobs {
+		var cmx sync.Mutex
+		for p := 0; p < par; p++ {
+			var mine []*job
+			for i := p; i < len(jobs); i += par {
+				mine = append(mine, jobs[i])
+			}
+			if len(mine) == 0 {
+				continue
+			}
 			wg.Add(1)
-			sem <- struct{}{}
 			go func() {
 				defer wg.Done()
-				defer func() { <-sem }()
-				if j.in.Explore != "" {
-					j.obs = c15ExecExplore(j.in, sup, wrk)
-				} else {
-					j.obs = c15ExecPool(j.in)
+				var pool []*job
+				for _, j := range mine {
+					if j.in.Explore != "" {
+						j.obs = c15ExecExplore(j.in, sup, wrk)
+					} else {
+						pool = append(pool, j)
+					}
 				}
+				ins := make([]*C15Input, len(pool))
+				for i, j := range pool {
+					ins[i] = j.in
+				}
+				obs, n := c15RunChildren(c, ins)
+				for i, j := range pool {
+					j.obs = obs[i]
+				}
+				cmx.Lock()
+				crashes += n
+				cmx.Unlock()
 			}()
 		}
 		wg.Wait()
@@ -1170,6 +1305,14 @@ func runC15(c *Ctx) error {
 	nPool := c.N(260, 6000)
 	nReal := c.N(24, 600)
 	nExp := c.N(300, 10000)
+	switch os.Getenv("C15_ONLY") { // debugging aid
+	case "pool":
+		nReal, nExp = 0, 0
+	case "real":
+		nPool, nExp = 0, 0
+	case "explore":
+		nPool, nReal = 0, 0
+	}
 	for i := 0; i < nPool; i++ {
 		jobs = append(jobs, &job{kind: "gen:pool", in: c15GenPool(c.Rng, false)})
 	}
@@ -1203,6 +1346,6 @@ func runC15(c *Ctx) error {
 	}
 	out.Close("random pool histories on a real Supervisor (TestFork/TestKill seams, some with real in-process workers); "+
 		"random mutation sequences on handler-less machines of the real supervisor/worker schemas",
-		map[string]any{"state_groups": cov})
+		map[string]any{"state_groups": cov, "crashed_cases": crashes})
 	return nil
 }
